@@ -671,6 +671,7 @@ func runC12(c *Ctx) {
 			k.Decls[j], k.Decls[m] = k.Decls[m], k.Decls[j]
 		}
 		k.Shape += "/days"
+		c.c12MagDecls("days", i, &k)
 		c.c12DaysCase(bt, "days", i, k)
 	}
 	bt.Flush()
@@ -682,6 +683,7 @@ func runC12(c *Ctx) {
 			continue
 		}
 		k := c12GenRequote(c.Rng("requote", i))
+		c.c12MagDecls("requote", i, &k)
 		c.c12DaysCase(bt, "requote", i, k)
 		if i%c12BalanceEvery == 0 {
 			c.c12BalanceCase("requote", i, k)
@@ -696,6 +698,7 @@ func runC12(c *Ctx) {
 			continue
 		}
 		k := c12GenShared(c.Rng("shared", i))
+		c.c12MagDecls("shared", i, &k)
 		c.c12DaysCase(bt, "shared", i, k)
 		if i%c12BalanceEvery == 0 {
 			c.c12SharedBalanceCase("shared", i, k)
@@ -708,11 +711,48 @@ func runC12(c *Ctx) {
 		if !c.Want("filter", i) || !on("filter") {
 			continue
 		}
-		c.c12FilterCaseRun(bt, "filter", i, c12GenFilter(c.Rng("filter", i)))
+		c.c12FilterCaseRun(bt, "filter", i, c12GenFilter(c.Rng("filter", i), false))
+	}
+	bt.Flush()
+	// ---- the same valued reports with price literals of 15-40 digits (around 2^63, 2^64, 10^18, 10^19, the point anywhere,
+	// leading zeros, long fractions, tiny values): the text goes through the parser, the model reads the same literals exactly
+	nm := c.N(150, 4000)
+	for i := 0; i < nm; i++ {
+		if !c.Want("magnitude", i) || !on("magnitude") {
+			continue
+		}
+		c.c12FilterCaseRun(bt, "magnitude", i, c12GenFilter(c.Rng("magnitude", i), true))
 	}
 }
 
 const c12BalanceEvery = 10
+
+// c12MagDecls: in a fifth of the cases of the streams days / requote / shared that are loaded from files (parser, price.Create,
+// loading pipeline) one to three of the positive quotes are rewritten with a literal of c12MagPrice. Its draws come from a
+// generator of its own (stream name + "-mag"), so the other cases of the stream are what they were.
+func (c *Ctx) c12MagDecls(stream string, i int, k *c12Case) {
+	if c.WorkDir == "" || !(i%3 == 0 || k.Files > 1) {
+		return
+	}
+	r := c.Rng(stream+"-mag", i)
+	if !r.Chance(1, 5) {
+		return
+	}
+	var idx []int
+	for j, d := range k.Decls {
+		if p, err := decimal.NewFromString(d.Price); !d.Empty && err == nil && p.IsPositive() {
+			idx = append(idx, j)
+		}
+	}
+	if len(idx) == 0 {
+		return
+	}
+	for m := r.Range(1, 3); m > 0; m-- {
+		k.Decls[Pick(r, idx)].Price, _ = c12MagPrice(r)
+	}
+	k.Shape += "/mag"
+	c.Tag("days-magnitude-literals")
+}
 
 // c12DaysCase: prices go through journal.Builder (grouping by date, file order within a day) and the
 // ComputePrices processor; every day's Normalized table is compared and monitored.
@@ -1453,6 +1493,20 @@ type c12FilterCase struct {
 	To          int // 0 = no --to
 	Runs        []c12FilterRun
 	Unconnected []string // booked commodities not connected to V when booked
+	Mag         string   // stream magnitude: class of the (last drawn) long price literal
+}
+
+// c12MagPrice: a positive non-zero price literal of C02's magnitude generator (15-40 digits around 2^31, 2^53, 10^18, 2^63, 10^19,
+// 2^64, 2^128, the point anywhere, leading zeros, long fractions, tiny values); the sign is dropped, zero is redrawn.
+func c12MagPrice(r *RNG) (string, string) {
+	for {
+		lit, class := c02MagLiteral(r)
+		lit = strings.TrimPrefix(lit, "-")
+		if strings.Trim(lit, "0.") == "" || (class == "ordinary" && r.Chance(2, 3)) {
+			continue
+		}
+		return lit, strings.ReplaceAll(class, "/neg", "")
+	}
 }
 
 func c12FilterPrice(r *RNG) string {
@@ -1478,7 +1532,11 @@ func c12FilterPrice(r *RNG) string {
 // of the commodities booked the day after in 1-3 asset accounts; 0-3 later re-quotes / new pairs (value adjustments); a
 // report date (--to) on or after the booking date; 2-3 filtered runs (--commodity: one or several booked commodities
 // anchored, one unanchored name, an intermediate commodity, everything; --account; both).
-func c12GenFilter(r *RNG) c12FilterCase {
+//
+// mag (stream magnitude): one or two of the quotes (and a later re-quote now and then) carry a literal of c12MagPrice; V is
+// mostly an end of such a pair and the other end is booked, half of the time with quantity 1, so that the report shows the
+// declared price itself (or its reciprocal) next to the chained prices. Without mag no extra random draw is made.
+func c12GenFilter(r *RNG, mag bool) c12FilterCase {
 	n := r.Range(3, 6)
 	if r.Chance(1, 5) {
 		n = r.Range(7, 8)
@@ -1521,6 +1579,18 @@ func c12GenFilter(r *RNG) c12FilterCase {
 	if r.Bool() {
 		k.V = Pick(r, names)
 	}
+	magComs := map[string]bool{}
+	if mag && len(k.Decls) > 0 {
+		k.Shape = shape + "/magnitude"
+		for j, m := 0, r.Range(1, 2); j < m; j++ {
+			d := &k.Decls[r.Intn(len(k.Decls))]
+			d.Price, k.Mag = c12MagPrice(r)
+			magComs[d.Com], magComs[d.Tgt] = true, true
+			if j == 0 && r.Chance(2, 3) {
+				k.V = Pick(r, []string{d.Tgt, d.Tgt, d.Com})
+			}
+		}
+	}
 	// connected to V when the positions are booked
 	parent := map[string]string{}
 	var find func(x string) string
@@ -1540,8 +1610,11 @@ func c12GenFilter(r *RNG) c12FilterCase {
 	all := r.Chance(1, 3)
 	for _, c := range names {
 		conn := find(c) == find(k.V)
-		if (conn && (all || r.Bool())) || (!conn && r.Chance(1, 12)) {
+		if (conn && (all || (mag && magComs[c]) || r.Bool())) || (!conn && r.Chance(1, 12)) {
 			k.Positions = append(k.Positions, c12Position{Acct: r.Intn(nacct), Com: c, Qty: itoa(r.Range(1, 500))})
+			if mag && magComs[c] && r.Bool() { // the price of one unit
+				k.Positions[len(k.Positions)-1].Qty = "1"
+			}
 			if !conn {
 				k.Unconnected = append(k.Unconnected, c)
 			}
@@ -1572,6 +1645,9 @@ func c12GenFilter(r *RNG) c12FilterCase {
 			a, b = b, a
 		}
 		d := c12Decl{Com: names[a], Price: c12FilterPrice(r), Tgt: names[b], Day: k.BookDay + r.Range(1, 3)}
+		if mag && r.Chance(1, 3) {
+			d.Price, k.Mag = c12MagPrice(r)
+		}
 		if d.Day > last {
 			last = d.Day
 		}
@@ -1813,6 +1889,9 @@ func (c *Ctx) c12FilterCaseRun(bt *Batch, stream string, i int, k c12FilterCase)
 			}
 		}
 		c.Monitor(stream, i, "a row filter shows exactly the selected positions", in2, len(wrong) == 0, strings.Join(wrong, "; ")+"\nunfiltered:\n"+out+"filtered:\n"+out2)
+	}
+	if k.Mag != "" {
+		c.Class("c12magnitude/" + k.Mag)
 	}
 	c.Class(fmt.Sprintf("c12filter/%s/n%d/pos%s/to%v/later%v", k.Shape, len(k.Names), bucket(len(lots)), k.To != 0, len(prefix) > 0 && prefix[len(prefix)-1].Day > k.BookDay))
 	if i < 1 {
